@@ -82,7 +82,7 @@ def random_scen(rng):
     for b in streamgen.block_sizes(rng, total, nsamp):
         steps.append({"k": "block", "n": b})
     return {"origin": "random", "nchan": 1, "npre": npre, "nsamp": nsamp, "signed": False, "period": rng.choice([100, 1000]),
-            "frame0": rng.choice([0, 0, 5000, 1 << 40]), "start": "fresh", "trig": [t], "steps": steps, "data": [xs], "oneblock": True}
+            "frame0": rng.choice([0, 0, 5000, 1 << 40, (1 << 32) - rng.randint(1, 3 * nsamp), (1 << 31) + rng.randint(0, 50), (5 << 32) - rng.randint(1, 2 * nsamp)]), "start": "fresh", "trig": [t], "steps": steps, "data": [xs], "oneblock": True}
 
 
 def relen_scen(rng):
